@@ -3,6 +3,7 @@ from ..engine import Prop
 from .. import structh as H
 from .. import queryh as Q
 from .. import renderh as R
+from .. import travh as T
 
 
 def tok(i, merged=False):
@@ -46,6 +47,12 @@ class PlainLeg(R.RenderLeg):
         if not obs["unchanged"]:
             return ["basic_render changed the graph"]
         members = obs["members"]
+        # "its FORWARD neighbours": read off the member's links in their order (the yardstick of C04, lib/travh.spec_neighbors)
+        for v, got in zip(members, obs["nbs"]):
+            want = T.spec_neighbors(obs["snap"], v, "Fwd", "UErr", None)
+            if got != want and not (got[0] == "raise" and want[0] == "raise"):
+                return [f"FORWARD neighbours of member {v}: neighbors() answers {got}; by the order of its links "
+                        f"{obs['snap']['vlinks'][v]} it is {want}"]
         for q, a in zip(case["queries"], obs["answers"]):
             srt = q[2]
             if not members:
